@@ -22,6 +22,15 @@ pub fn canon_prefix(p: &str) -> (String, Vec<String>, bool) {
     (parts[0].to_string(), ds, p.ends_with('~'))
 }
 
+/// the `cnf` member names the key the issuer was asked to bind: the key itself (what this crate writes) or
+/// RFC 7800's `{"jwk": key}`; no property fixes which
+pub fn cnf_is_key(cnf: Option<&Value>, jwk: &Value) -> bool {
+    match cnf {
+        Some(c) => c == jwk || (c.as_object().map_or(false, |o| o.len() == 1) && c.get("jwk") == Some(jwk)),
+        None => false,
+    }
+}
+
 pub fn tree_op(ctx: &mut Ctx, alg: &str, tree: &Node, root_sd_actual: Option<&Value>, shows: &[Vec<usize>]) -> Value {
     let mut wire = tree.to_wire();
     if let Some(sd) = root_sd_actual {
